@@ -6,6 +6,12 @@
 // up front by rapid and executed by a total interpreter on one Document D and
 // an in-memory second replica P; parameters are resolved modulo the current
 // state, so every generated step is an input the public API accepts.
+//
+// The edit alphabet is the shared prog alphabet (edits_test.go) plus the
+// entry points only this package calls (ext_test.go): the YSON entry points
+// with tabled / copied values, dedup counters, and tree edits by index
+// (splits, boundary-crossing deletes, styles over arbitrary index ranges,
+// nested content).
 package c08
 
 import (
@@ -15,6 +21,7 @@ import (
 	"errors"
 	"fmt"
 	"hash/fnv"
+	"os"
 	"sort"
 	"strings"
 	"testing"
@@ -29,6 +36,7 @@ import (
 	"github.com/yorkie-team/yorkie/pkg/document/change"
 	"github.com/yorkie-team/yorkie/pkg/document/crdt"
 	"github.com/yorkie-team/yorkie/pkg/document/json"
+	"github.com/yorkie-team/yorkie/pkg/document/operations"
 	"github.com/yorkie-team/yorkie/pkg/document/presence"
 	"github.com/yorkie-team/yorkie/pkg/document/time"
 	"github.com/yorkie-team/yorkie/pkg/key"
@@ -51,10 +59,10 @@ func init() { kit.Pkg = "c08" }
 
 // Step is one step of a history.
 //
-//	edit   D: one successful Update running Edits (1..2 edits)
+//	edit   D: one successful Update running Edits (1..3 edits)
 //	fail   D: one Update whose callback runs the first K' edits and then fails
 //	       according to Mode (error | panic | schema | size)
-//	pedit  P: one Update running Edits
+//	pedit  P: one Update running Edits (1..2 edits)
 //	pull   the first n pending changes of P are delivered to D (D keeps its own)
 //	push   the first n pending changes of D are delivered to P and acknowledged
 //	sync   full exchange in both directions (A odd: the packs carry the safe GC vector)
@@ -114,8 +122,20 @@ var failModes = []string{"error", "error", "error", "panic", "panic", "schema", 
 
 func genEdit(pool []string) *rapid.Generator[prog.Step] {
 	return rapid.Custom(func(t *rapid.T) prog.Step {
+		op := rapid.SampledFrom(pool).Draw(t, "op")
+		if isExtOp(op) {
+			// the edits of this package select among more alternatives
+			// (entry point x key x shape, 22 tabled leaves, index ranges of a
+			// tree) than the shared ones
+			return prog.Step{
+				Op: op,
+				A:  rapid.IntRange(0, 71).Draw(t, "a"),
+				B:  rapid.IntRange(0, 43).Draw(t, "b"),
+				C:  rapid.IntRange(0, 71).Draw(t, "c"),
+			}
+		}
 		return prog.Step{
-			Op: rapid.SampledFrom(pool).Draw(t, "op"),
+			Op: op,
 			A:  rapid.IntRange(0, 7).Draw(t, "a"),
 			B:  rapid.IntRange(0, 7).Draw(t, "b"),
 			C:  rapid.IntRange(0, 8).Draw(t, "c"),
@@ -123,30 +143,55 @@ func genEdit(pool []string) *rapid.Generator[prog.Step] {
 	})
 }
 
+func opsOfKind(k string) []string {
+	if ops, ok := extOpsByKind[k]; ok {
+		return ops
+	}
+	return prog.OpsByKind[k]
+}
+
 func genCase() *rapid.Generator[Case] {
 	maxSteps := kit.Pick(24, 40)
+	kinds := append(append([]string{}, editKinds...), extKinds...)
 	return rapid.Custom(func(t *rapid.T) Case {
 		// A case edits a drawn subset of the element kinds so that the edits
 		// of D, of its failing callbacks and of P collide on the same
 		// containers.
-		mask := rapid.IntRange(1, (1<<len(editKinds))-1).Draw(t, "kinds")
-		if rapid.IntRange(0, 3).Draw(t, "allkinds") == 0 {
-			mask = (1 << len(editKinds)) - 1
+		mask := rapid.IntRange(1, (1<<len(kinds))-1).Draw(t, "kinds")
+		switch rapid.IntRange(0, 7).Draw(t, "focus") {
+		case 0, 1:
+			mask = (1 << len(kinds)) - 1
+		case 2:
+			// the entry points only this package calls, alone or with a
+			// few of the shared kinds
+			mask = mask&((1<<len(editKinds))-1)&rapid.IntRange(0, (1<<len(editKinds))-1).Draw(t, "few") |
+				rapid.IntRange(1, (1<<len(extKinds))-1).Draw(t, "ext")<<len(editKinds)
 		}
 		var pool []string
-		for i, k := range editKinds {
+		var oneKind []*rapid.Generator[prog.Step]
+		for i, k := range kinds {
 			if mask&(1<<i) != 0 {
-				pool = append(pool, prog.OpsByKind[k]...)
+				pool = append(pool, opsOfKind(k)...)
+				oneKind = append(oneKind, genEdit(opsOfKind(k)))
 			}
 		}
-		edit := genEdit(pool)
+		all := genEdit(pool)
 		step := rapid.Custom(func(t *rapid.T) Step {
 			s := Step{Op: rapid.SampledFrom(stepPool).Draw(t, "step")}
+			edit := all
+			switch s.Op {
+			case "edit", "pedit", "fail":
+				// one callback in three works on ONE kind of element (split then
+				// style, create then add, set then copy, ...)
+				if rapid.IntRange(0, 2).Draw(t, "onekind") == 0 {
+					edit = oneKind[rapid.IntRange(0, len(oneKind)-1).Draw(t, "kind")]
+				}
+			}
 			switch s.Op {
 			case "edit":
-				s.Edits = rapid.SliceOfN(edit, 1, 2).Draw(t, "edits")
+				s.Edits = rapid.SliceOfN(edit, 1, 3).Draw(t, "edits")
 			case "pedit":
-				s.Edits = rapid.SliceOfN(edit, 1, 1).Draw(t, "edits")
+				s.Edits = rapid.SliceOfN(edit, 1, 2).Draw(t, "edits")
 			case "fail":
 				s.Mode = rapid.SampledFrom(failModes).Draw(t, "mode")
 				s.Edits = rapid.SliceOfN(edit, 0, 4).Draw(t, "edits")
@@ -187,6 +232,14 @@ type outcome struct {
 	FailedSteps map[int]bool
 	// TwinDeviated: an update that succeeded in the main run failed in the twin.
 	TwinDeviated bool
+	// ConcurrentSM: both replicas made split / merge edits of a tree that
+	// were concurrent (neither had seen the other's).
+	ConcurrentSM bool
+	// Step: index of the step at which the run ended (failure or abort).
+	Step int
+	// DrawnUpdateRejected: the failure is a drawn valid update (not the fixed
+	// probe) that was rejected after a failed update.
+	DrawnUpdateRejected bool
 }
 
 type world struct {
@@ -217,6 +270,168 @@ type world struct {
 	// the non-trivial rule).
 	epilogue     bool
 	twinDeviated bool
+
+	// Concurrent split/merge bookkeeping (restriction of the final D/P
+	// convergence oracle, see evaluate): smSeqs[i] holds the clientSeq of the
+	// changes of replica i (0 = D, 1 = P) that split an element or deleted
+	// across an element boundary; everSM[0]: D ever made such a change (its
+	// undo/redo changes then count as such, too).
+	smSeqs       [2]map[uint32]bool
+	everSM       [2]bool
+	concurrentSM bool
+
+	drawnUpdateRejected bool
+
+	// asetSeen: an ArraySet was executed on either replica (trigger of F46,
+	// see gcGuard).
+	asetSeen bool
+}
+
+// unregisteredGarbage reports whether D's authoritative root holds garbage
+// (tombstoned elements, dead array slots, removed text/tree nodes) that its GC
+// bookkeeping does not know: a root rebuilt from a deep copy of it -- what the
+// next Root() hands out after the clone was dropped -- registers everything
+// that is physically there.
+func unregisteredGarbage(d *document.Document) bool {
+	cp, err := d.RootObject().DeepCopy()
+	if err != nil {
+		return false
+	}
+	have, fresh := d.InternalDocument().Root(), crdt.NewRoot(cp.(*crdt.Object))
+	// internal nodes (dead array slots, removed text / tree nodes, attributes)
+	if have.GarbageLen()-have.GarbageElementLen() != fresh.GarbageLen()-fresh.GarbageElementLen() {
+		return true
+	}
+	// tombstoned elements
+	hm, fm := have.GCElementPairMap(), fresh.GCElementPairMap()
+	if len(hm) != len(fm) {
+		return true
+	}
+	for k := range fm {
+		if _, ok := hm[k]; !ok {
+			return true
+		}
+	}
+	return false
+}
+
+// gcGuard is evaluated BEFORE a garbage collection runs on D. Known finding
+// F46: the element replaced by an ArraySet is tombstoned without GC
+// registration on the executing root (json/array.go setByIndexInternal says so
+// in a TODO; operations/array_set.go), while a root rebuilt from a deep copy --
+// the clone after a failed Update, a failed Undo, ... -- registers every
+// tombstone that is physically there. A collection then purges the tombstone
+// on the clone only, and since tombstones act as RGA barriers a later insert /
+// move / set lands at different places on the two: Root() != Marshal().
+// Trigger: an ArraySet was executed in this history AND the authoritative
+// root holds unregistered garbage right now. The collection is then left out.
+func (w *world) gcGuard() bool {
+	if w.opts.noExcl || !w.asetSeen || !unregisteredGarbage(w.D) {
+		return false
+	}
+	w.ev["excluded:F46"]++
+	return true
+}
+
+func nonPrimitive(e crdt.Element) bool {
+	switch e.(type) {
+	case *crdt.Primitive:
+		return false
+	}
+	return e != nil
+}
+
+// restoresDuplicate inspects the history entry an Undo/Redo is about to
+// execute (known finding F6, family): the reverse of a Set / Remove / ArraySet
+// re-inserts a deep copy of the element that was replaced or removed. The
+// Set reverse keeps the copy's creation ticket (F6 proper); the Add and
+// ArraySet reverses give the copy itself a fresh one (document.go
+// executeUndoRedo explains why: "the restored element and its own tombstone
+// would collide under the same identity") -- but everything INSIDE the copy
+// keeps its identity: nested containers / counters / texts / trees, and the
+// internal garbage nodes of arrays, texts and trees (dead slots, removed
+// nodes). While the original is still held by the root as a tombstone, two
+// things share one identity. crdt.Root keys its element map and its GC maps by
+// identity, last registration wins: the executing root registers the copy
+// last, a root rebuilt from a deep copy (the clone after a failed Update)
+// registers in traversal order. A later operation addressed to such an
+// identity, or a later collection, then acts on different objects on the
+// authoritative root and on the copy handed to callbacks.
+// It reports true when the entry would create such a duplicate.
+func restoresDuplicate(d *document.Document, top []document.HistoryOperation) bool {
+	var present map[string]bool
+	held := func(e crdt.Element) bool {
+		if present == nil {
+			present = map[string]bool{}
+			d.RootObject().Descendants(func(x crdt.Element, _ crdt.Container) bool {
+				if nonPrimitive(x) {
+					present[x.CreatedAt().Key()] = true
+				}
+				return false
+			})
+		}
+		return present[e.CreatedAt().Key()]
+	}
+	innerGarbage := func(e crdt.Element) bool {
+		switch x := e.(type) {
+		case *crdt.Array:
+			return len(x.GCPairs()) > 0
+		case *crdt.Text:
+			return len(x.GCPairs()) > 0
+		case *crdt.Tree:
+			return len(x.GCPairs()) > 0
+		}
+		return false
+	}
+	dup := false
+	for _, h := range top {
+		var v crdt.Element
+		switch op := h.Op.(type) {
+		case *operations.Set:
+			v = op.Value()
+		case *operations.Add:
+			v = op.Value()
+		case *operations.ArraySet:
+			v = op.Value()
+		}
+		if v == nil || !nonPrimitive(v) {
+			continue
+		}
+		// the copy itself: its internal nodes
+		if innerGarbage(v) && held(v) {
+			return true
+		}
+		if c, ok := v.(crdt.Container); ok {
+			c.Descendants(func(e crdt.Element, _ crdt.Container) bool {
+				if nonPrimitive(e) && held(e) {
+					dup = true
+				}
+				return dup
+			})
+		}
+		if dup {
+			return true
+		}
+	}
+	return false
+}
+
+// noteSplitMerge is called right after replica i (0 = D, 1 = P) made a
+// change that contains a split / merge. The change is concurrent with every
+// split / merge change the other replica has made and not yet delivered.
+func (w *world) noteSplitMerge(i int) {
+	docs := [2]*document.Document{w.D, w.P}
+	for _, c := range docs[1-i].CreateChangePack().Changes {
+		if w.smSeqs[1-i][c.ClientSeq()] {
+			if !w.concurrentSM {
+				w.ev["hist_concurrent_split_merge_on_both_sides"]++
+			}
+			w.concurrentSM = true
+			break
+		}
+	}
+	w.everSM[i] = true
+	w.smSeqs[i][lastSeq(docs[i], docs[i].CreateChangePack().Changes)] = true
 }
 
 var errDeliberate = errors.New("c08: deliberate updater failure")
@@ -703,9 +918,10 @@ func (w *world) failingUpdate(s Step) (*kit.Failure, string) {
 
 	var descs []string
 	mutatedCount := 0
+	cx := newCbCtx(w.ev, "fail", w.D)
 	uerr, pan := callUpdate(w.D, func(r *json.Object, p *presence.Presence) error {
 		for _, e := range edits {
-			d, m := editIn(r, p, e)
+			d, m := editIn(cx, r, p, e)
 			descs = append(descs, d)
 			if m {
 				mutatedCount++
@@ -765,6 +981,10 @@ func (w *world) failingUpdate(s Step) (*kit.Failure, string) {
 		// successful update.
 		w.ev["fail_step_succeeded_"+mode]++
 		w.failedSinceGood = false
+		if cx.sm {
+			w.noteSplitMerge(0)
+		}
+		w.asetSeen = w.asetSeen || cx.aset
 		w.logf("D update(%s attached, not violated) %s -> ok", mode, describeEdits(descs))
 		return nil, ""
 	}
@@ -875,9 +1095,10 @@ func (w *world) probe() *kit.Failure {
 // validUpdate executes one "edit" step on D.
 func (w *world) validUpdate(s Step) (*kit.Failure, string) {
 	var descs []string
+	cx := newCbCtx(w.ev, "edit", w.D)
 	err, pan := callUpdate(w.D, func(r *json.Object, p *presence.Presence) error {
 		for _, e := range s.Edits {
-			d, _ := editIn(r, p, e)
+			d, _ := editIn(cx, r, p, e)
 			descs = append(descs, d)
 		}
 		return nil
@@ -889,8 +1110,10 @@ func (w *world) validUpdate(s Step) (*kit.Failure, string) {
 	if err != nil || pan != nil {
 		w.logf("D update %s -> err=%v panic=%v", describeEdits(descs), err, pan)
 		if w.failedSinceGood {
-			return kit.Failf("NEXT-UPDATE-FAILED", "the first valid update %s after a failed one: err=%v panic=%v",
-				describeEdits(descs), err, pan), ""
+			f := kit.Failf("NEXT-UPDATE-FAILED", "the first valid update %s after a failed one: err=%v panic=%v",
+				describeEdits(descs), err, pan)
+			w.drawnUpdateRejected = true
+			return f, ""
 		}
 		// A valid edit the code under test rejects without a preceding failed
 		// update is outside this property (and a panic leaves F7's dirty clone).
@@ -901,6 +1124,10 @@ func (w *world) validUpdate(s Step) (*kit.Failure, string) {
 	}
 	w.failedSinceGood = false
 	w.logf("D update %s -> ok", describeEdits(descs))
+	if cx.sm {
+		w.noteSplitMerge(0)
+	}
+	w.asetSeen = w.asetSeen || cx.aset
 	return nil, ""
 }
 
@@ -920,18 +1147,26 @@ func (w *world) step(i int, s Step) (*kit.Failure, string) {
 		return w.failingUpdate(s)
 	case "pedit":
 		var descs []string
+		cx := newCbCtx(w.ev, "pedit", w.P)
 		err, pan := callUpdate(w.P, func(r *json.Object, p *presence.Presence) error {
 			for _, e := range s.Edits {
-				d, _ := editIn(r, p, e)
+				d, _ := editIn(cx, r, p, e)
 				descs = append(descs, d)
 			}
 			return nil
 		})
+		if hb, ok := pan.(harnessBug); ok {
+			return kit.Failf("HARNESS", "%s", string(hb)), ""
+		}
 		if err != nil || pan != nil {
 			w.logf("P update %s -> err=%v panic=%v", describeEdits(descs), err, pan)
 			return nil, "peer_update_failed"
 		}
 		w.logf("P update %s", describeEdits(descs))
+		if cx.sm {
+			w.noteSplitMerge(1)
+		}
+		w.asetSeen = w.asetSeen || cx.aset
 	case "pull":
 		n := prefix(s.A, len(w.P.CreateChangePack().Changes))
 		if n == 0 {
@@ -970,6 +1205,10 @@ func (w *world) step(i int, s Step) (*kit.Failure, string) {
 	case "snap":
 		return w.snapshot(s.A)
 	case "gc":
+		if w.gcGuard() {
+			w.logf("gc left out (known finding: D's root holds garbage its GC bookkeeping does not know)")
+			return nil, ""
+		}
 		vec := w.safeVector()
 		var nd, np int
 		_, pan := guarded(func() error {
@@ -995,6 +1234,15 @@ func (w *world) step(i int, s Step) (*kit.Failure, string) {
 			return nil, ""
 		}
 		_, f6 := prog.GuardF6(w.D, prog.Step{Op: s.Op})
+		top := w.D.UndoStackTopForTest()
+		if s.Op == "redo" {
+			top = w.D.RedoStackTopForTest()
+		}
+		if !w.opts.noExcl && restoresDuplicate(w.D, top) {
+			w.ev["excluded:F6"]++
+			w.logf("D %s left out (known finding F6: it re-inserts a copy whose inner elements / garbage nodes keep the identity of their tombstoned originals)", s.Op)
+			return nil, ""
+		}
 		seqBefore := lastSeq(w.D, w.D.CreateChangePack().Changes)
 		err, pan := guarded(func() error {
 			if s.Op == "undo" {
@@ -1002,8 +1250,14 @@ func (w *world) step(i int, s Step) (*kit.Failure, string) {
 			}
 			return w.D.Redo()
 		})
-		if seqAfter := lastSeq(w.D, w.D.CreateChangePack().Changes); f6 != "" && seqAfter != seqBefore {
-			w.f6Seqs[seqAfter] = true
+		if seqAfter := lastSeq(w.D, w.D.CreateChangePack().Changes); seqAfter != seqBefore {
+			if f6 != "" {
+				w.f6Seqs[seqAfter] = true
+			}
+			if w.everSM[0] {
+				// the reverse of a split is a merge and vice versa
+				w.noteSplitMerge(0)
+			}
 		}
 		w.logf("D %s -> err=%v", s.Op, err)
 		if err != nil || pan != nil {
@@ -1024,6 +1278,9 @@ func (w *world) step(i int, s Step) (*kit.Failure, string) {
 // receives all of the other side's in one pack, like a push-pull response.
 func (w *world) sync(gc bool) (*kit.Failure, string) {
 	w.track()
+	if gc && w.gcGuard() {
+		gc = false
+	}
 	vec := time.NewVersionVector()
 	dp := w.D.CreateChangePack().Changes
 	pp := w.P.CreateChangePack().Changes
@@ -1146,7 +1403,8 @@ func (w *world) snapshot(a int) (*kit.Failure, string) {
 }
 
 func newWorld(opts runOpts) (*world, error) {
-	w := &world{ev: map[string]int{}, opts: opts, failedSteps: map[int]bool{}, f6Seqs: map[uint32]bool{}}
+	w := &world{ev: map[string]int{}, opts: opts, failedSteps: map[int]bool{}, f6Seqs: map[uint32]bool{},
+		smSeqs: [2]map[uint32]bool{{}, {}}}
 	a1, err := time.ActorIDFromHex("0000000000000000000000d1")
 	if err != nil {
 		return nil, err
@@ -1179,7 +1437,8 @@ func run(c Case, opts runOpts) outcome {
 		return outcome{Fail: kit.Failf("HARNESS", "init: %v", err), Ev: map[string]int{}}
 	}
 	finish := func(f *kit.Failure, abort string) outcome {
-		o := outcome{Fail: f, Hist: w.hist, Ev: w.ev, Abort: abort, FailedSteps: w.failedSteps, TwinDeviated: w.twinDeviated}
+		o := outcome{Fail: f, Hist: w.hist, Ev: w.ev, Abort: abort, FailedSteps: w.failedSteps, TwinDeviated: w.twinDeviated,
+			ConcurrentSM: w.concurrentSM, Step: w.cur, DrawnUpdateRejected: w.drawnUpdateRejected}
 		if abort != "" {
 			w.ev["abort_"+abort]++
 			// A step other than Update failed (a pack could not be applied,
@@ -1243,6 +1502,22 @@ func run(c Case, opts runOpts) outcome {
 func evaluate(c Case) outcome {
 	noExcl := kit.NoExclusions()
 	o := run(c, runOpts{noExcl: noExcl})
+	if o.Fail != nil && o.Fail.Kind == "NEXT-UPDATE-FAILED" && o.DrawnUpdateRejected {
+		// A drawn valid update was rejected (a proxy panicked or Update
+		// returned an error) after a failed one. That is the failed update's
+		// doing only if the same update is accepted when the failed updates
+		// are left out (they must be no-ops). The tree has known defects
+		// (concurrent delete vs split: a valid index does not resolve any
+		// more) that reject a valid edit with or without them; such a case
+		// ends like every other rejected valid update (abort).
+		t := run(c, runOpts{noExcl: noExcl, skip: o.FailedSteps})
+		if t.Fail == nil && t.Abort == "valid_update_rejected" && t.Step == o.Step {
+			o.Ev["next_update_rejected_also_without_failing_updates"]++
+			o.Ev["abort_valid_update_rejected"]++
+			o.Fail, o.Abort = nil, "valid_update_rejected"
+			return o
+		}
+	}
 	if o.Fail != nil || o.Abort != "" {
 		return o
 	}
@@ -1254,6 +1529,16 @@ func evaluate(c Case) outcome {
 	// concurrent peer edit, ArraySet on a moved element, ...) are not this
 	// property. Attribute: three more runs must diverge again and three twin
 	// runs without the failing updates must all converge.
+	if o.ConcurrentSM {
+		// Replica divergence after CONCURRENT splits / merges of a tree on
+		// both sides is a matter of the convergence properties (C19/C01; known
+		// tree defects, upstream docs/design/concurrent-merge-split.md), and
+		// with it the twin comparison is not meaningful. Keyed on the history
+		// (what was executed), not on the outcome; clone==root was checked on
+		// every step as in every other case.
+		o.Ev["final_diverged_with_concurrent_split_merge"]++
+		return o
+	}
 	if len(o.FailedSteps) == 0 {
 		o.Ev["final_diverged_without_failing_update"]++
 		return o
@@ -1290,6 +1575,8 @@ func sampleOf(c Case, o outcome) any {
 	return map[string]any{"case": c.compact(), "history": h, "events": ev}
 }
 
+var debugAborts = os.Getenv("C08_DEBUG_ABORT")
+
 func TestC08(t *testing.T) {
 	col := stats.New(propID, "random")
 	type rec struct {
@@ -1318,6 +1605,13 @@ func TestC08(t *testing.T) {
 		c := gen.Draw(rt, "case")
 		o := evaluate(c)
 		col.Record(c.hash(), o.NonTrivial && o.Fail == nil, o.Ev, func() any { return sampleOf(c, o) })
+		if debugAborts != "" && o.Abort != "" && strings.Contains(o.Abort, debugAborts) {
+			// debugging aid: C08_DEBUG_ABORT=<substring of the abort reason>
+			fmt.Printf("ABORT %s case=%s\n", o.Abort, c.compact())
+			for _, h := range o.Hist[max(0, len(o.Hist)-6):] {
+				fmt.Printf("    %s\n", h)
+			}
+		}
 		if o.Fail != nil {
 			if o.Fail.Kind == "HARNESS" {
 				harnessErr = o.Fail.Msg
